@@ -23,5 +23,27 @@ out=['# Seeded changes (written by independent sub-agents from the property text
      '%d changes; own check fires on %d; caught by at least one check: %d.'%(len(rows),sum(1 for r in rows if r[2]=='FIRES'),sum(1 for r in rows if r[2]=='FIRES' or r[3])),'',
      '| seeded change | what it needs to manifest | own check | other checks that fire | silent |','|---|---|---|---|---|']
 for r in rows: out.append('| %s | %s | %s | %s | %s |'%r)
+# property-agnostic bug seeds (B<i>-<n>): all 19 quick checks were run against each
+notes={}
+try: notes=json.load(open('/verif/seeded/B_NOTES.json'))
+except Exception: pass
+brows=[]
+for d in sorted(glob.glob('/verif/seeded/B*-*')):
+    name=os.path.basename(d); det=os.path.join(d,'detected.txt')
+    if not os.path.exists(det): continue
+    fired=[]
+    for l in open(det):
+        m=re.match(r'^(C\d+) exit=(\d+)',l.strip())
+        if m and m.group(2)=='1': fired.append(m.group(1))
+    summ=''
+    try: summ=json.load(open(os.path.join(d,'meta.json'))).get('summary','')
+    except Exception: pass
+    summ=' '.join(str(summ).split())[:170].replace('|','/')
+    brows.append((name,summ,' '.join(fired) if fired else 'none', notes.get(name,'')))
+if brows:
+    out+=['','## Property-agnostic bug seeds','',
+          'Sixteen further bugs written by four sub-agents that were given NO property, only a file area ("a realistic bug that changes observable behaviour in some uncommon circumstance, tests still pass").  All 19 quick checks were run against each.  %d are caught; the other %d change behaviour that none of the 19 given properties speaks about (last column).'%(sum(1 for b in brows if b[2]!='none'),sum(1 for b in brows if b[2]=='none')),'',
+          '| bug | summary | checks that fire | if none: why |','|---|---|---|---|']
+    for b in brows: out.append('| %s | %s | %s | %s |'%b)
 open('/verif/seeded/RESULTS.md','w').write('\n'.join(out)+'\n')
 print(out[4])
